@@ -10,6 +10,7 @@ CONT = [{"op": "put", "k": 1, "v": 4}, {"op": "put", "k": 2, "v": 3}, {"op": "re
         {"op": "prigc", "lowUse": 0, "deadline": 0}, {"op": "put", "k": 4, "v": 5}, {"op": "reopen", "snap": "drop"}]
 KF_TORN = "KF-C03-torn-primary-tail"
 KF_TRANS = "KF-C09-interrupted-translation"
+KF_CLEANUP = "KF-C10-interrupted-cleanup-of-unusable-entries"
 KNOWN_EXAMPLES = []
 
 
@@ -48,7 +49,11 @@ def run_crash(rep, scens, label, workers=None):
     bad = sorted(bad, key=lambda b: (b["t"], b["i"]))
     for b in bad:
         key = (b["t"], b["i"])
-        if key in seen or b["rule"] == "call-failed-in-traced-run":
+        if key in seen:
+            continue
+        if b["rule"] == "call-failed-in-traced-run":
+            seen.add(key)
+            viol.append(("a call of the traced run itself failed (no crash involved): see the 'op' events of the trace", {"engine": "crash", "scenario": scens[b["t"]], "rules": ["call-failed-in-traced-run"]}))
             continue
         seen.add(key)
         e = cases.get(key, {})
@@ -68,6 +73,12 @@ def run_crash(rep, scens, label, workers=None):
         if t not in bycont:
             continue
         (st, _), e = bycont[t]
+        if scens[st].get("mode") == "upgrade" and (scens[st].get("legacy") or {}).get("lost", 0) > 0 and (e.get("remapMarkersBefore", 0) >= 1 or (e.get("renamesBefore", 0) >= 1 and e.get("renamesAfter", 1) == 0)) \
+                and rules <= {"F2-entry-points-at-bad-primary-record", "F4-live-location-on-freelist", "F3-record-list-order"}:
+            # known finding: interrupted after an index file holding unusable entries was remapped and before the final flush that drops them
+            known[KF_CLEANUP] = known.get(KF_CLEANUP, 0) + 1
+            KNOWN_EXAMPLES.append({"id": KF_CLEANUP, "scenario": dict(scens[st], onlyOps=[e["inflight"]["idx"]], maxImgs=0, allTorn=True), "rules": sorted(rules)})
+            continue
         if torn_primary(e):
             known[KF_TORN] = known.get(KF_TORN, 0) + 1
             KNOWN_EXAMPLES.append({"scenario": dict(scens[st], onlyOps=[e["inflight"]["idx"]], maxImgs=0, allTorn=True), "rules": sorted(rules)})
@@ -122,7 +133,7 @@ def scenarios_c10(rng, n, maximgs, thorough):
         lim = rng.choice([30, 30, 70, 200, 1 << 30])
         cfg = {"primary": "mh", "bits": rng.choice([8, 9, 12]), "il": rng.choice([30, 70, 200, 1 << 30]), "pl": lim, "imm": False, "keys": keys, "vals": seqeng.VALS}
         out.append({"cfg": cfg, "ops": [], "maxImgs": maximgs, "cont": CONT, "mode": "upgrade", "seed": vlib.seed() * 1000 + i, "onlyOps": [-1], "allTorn": thorough,
-                    "legacy": {"vals": vals, "freed": freed, "pending": rng.random() < 0.6, "bits": cfg["bits"]}})
+                    "legacy": {"vals": vals, "freed": freed, "pending": rng.random() < 0.6, "bits": cfg["bits"], "lost": rng.choice([0, 0, 1, 2, 3])}})
     return out
 
 
